@@ -63,6 +63,8 @@ let () =
                let (k, off) = slot_addr (z_of_int i) in go (i + 1) (off :: k :: acc) in
            print_zs (hh.h_segs :: cap :: go 0 [])
          | "M" -> let ((r, tg), dl) = compute_missed a.(0) a.(1) a.(2) a.(3) a.(4) in print_zs [r; tg; dl]
+         | "G" -> let (((c, tg), dl), itv) = config_create a.(0) a.(1) a.(2) a.(3) a.(4) a.(5) a.(6) in print_zs [c; tg; dl; itv]
+         | "H" -> print_zs (after_obs (dispatch_after_model a.(0) a.(1) a.(2) a.(3)))
          | "t" -> top (TNew (a.(0), a.(1)))
          | "a" -> top (TAfter (a.(0), a.(1), a.(2)))
          | "c" -> top (TCfg (a.(0), a.(1), a.(2), a.(3), a.(4)))
